@@ -1,13 +1,18 @@
 import DuneVerif.Model.C04F
+import DuneVerif.Model.C04L
 import DuneVerif.Common.Proto
 /-!
 line-protocol driver for C04 (format: see harness/mpi_c04.cc)
 
-  c04 <P> <flags> <hints> [g=<type>] [comm=<spec>] : seg;seg;...
+  c04 <P> <flags> <hints> [g=<type>] [n=<chunk>] [comm=<spec>] : seg;seg;...
 
 The global index type only restricts the range of the global indices of the line (the model's global indices are
 integers, all the model uses is their order); the communicator only decides which world process plays which rank
-(the answers are listed by rank in the communicator, processes left out answer `{}`).  Both tokens are validated.
+(the answers are listed by rank in the communicator, processes left out answer `{}`).  `n=` is the chunk size of the
+index sets' storage: the model's index sets are lists (what the iterator of the chunked storage walks through, see
+`DV.C04.L.packWalk` / `pack_chunked`), so it only is validated, like the other two.  An `a` segment may name the way the
+local index is constructed (`a…,<how>`): the pair is made by `DV.C04.L.mkPair how`, i.e. by the constructors / mutators
+regenerated from plocalindex.hh.
 
 The driver keeps the model's `World` (per rank: three index set objects with their sequence numbers, which of them
 are source and target, includeSelf, hints, the `RIState`) plus the pending adds/deletes of the harness protocol.
@@ -109,16 +114,20 @@ def step (st : St) (seg : String) : Option St :=
           let isTwo := st.two.getD r false
           let o := objOf rw s
           if kind == 'a' then
-            match more with
-            | [l, a, pb] =>
+            let how? : Option Nat := match more with
+              | [_, _, _] => some 0
+              | [_, _, _, h] => if h.length == 1 then (h.toNat?).bind fun k => if k ≤ 4 then some k else none else none
+              | _ => none
+            match more.take 3, how? with
+            | [l, a, pb], some how =>
               match l.toNat?, a.toNat? with
               | some l, some a =>
-                if a > 3 then none else
+                if a > 3 || (pb != "0" && pb != "1") then none else
                 if s == 1 && !isTwo then some st else
                 let pe := getPend st r o
-                some (setPend st r o { pe with adds := pe.adds ++ [{ g := g, l := l, a := a, pub := pb == "1" }] })
+                some (setPend st r o { pe with adds := pe.adds ++ [L.mkPair how g l a (pb == "1")] })
               | _, _ => none
-            | _ => none
+            | _, _ => none
           else
             match more with
             | [] =>
@@ -225,7 +234,12 @@ def commExtra (P : Nat) (v : String) : Option Nat :=
 
 structure Opts where
   g : Option (Int × Int) := none
+  gName : String := "int"
+  n : Option Nat := none
   extra : Option Nat := none
+
+/-- the chunk sizes the harness instantiates: 100 for every global index type, 1, 3, 8 for `int` -/
+def chunkOk (gName : String) (n : Nat) : Bool := n == 100 || (gName == "int" && (n == 1 || n == 3 || n == 8))
 
 def parseOpts : List String → Nat → Opts → Option Opts
   | [], _, o => some o
@@ -233,7 +247,14 @@ def parseOpts : List String → Nat → Opts → Option Opts
     if t.startsWith "g=" then
       if o.g.isSome then none else
       match gRange (String.ofList (t.toList.drop 2)) with
-      | some r => parseOpts ts P { o with g := some r }
+      | some r => parseOpts ts P { o with g := some r, gName := String.ofList (t.toList.drop 2) }
+      | none => none
+    else if t.startsWith "n=" then
+      if o.n.isSome then none else
+      let v := String.ofList (t.toList.drop 2)
+      if v.length > 9 || v.isEmpty || !v.toList.all Char.isDigit then none else
+      match v.toNat? with
+      | some k => parseOpts ts P { o with n := some k }
       | none => none
     else if t.startsWith "comm=" then
       if o.extra.isSome then none else
@@ -251,10 +272,11 @@ def handle (line : String) : String :=
     match ps.toNat? with
     | none => "bad-op"
     | some P =>
-      if optToks.length > 2 then "bad-op" else
+      if optToks.length > 3 then "bad-op" else
       match parseOpts optToks P {} with
       | none => "bad-op"
       | some opts =>
+      if !chunkOk opts.gName (opts.n.getD 100) then "bad-op" else
       let (gLo, gHi) := opts.g.getD (-2147483648, 2147483647)
       let extra := opts.extra.getD 0
       let fl := flags.toList
